@@ -348,6 +348,16 @@ func main() {
 		_ = ci
 	}
 	if r.Quick() {
+		// quick tier: the less used signing scheme on a reduced product (its certificate-time check is a branch of its own)
+		for _, L := range lib.AllLevelMaps() {
+			for _, certValid := range []bool{true, false} {
+				for _, anchor := range []string{"found", "notfound"} {
+					for _, rev := range []string{"ok", "revoked"} {
+						cells = append(cells, cell{Format: lib.MediaJWS, Scheme: "notary.x509.signingAuthority", L: L, Anchor: anchor, Ident: true, CertValid: certValid, Rev: rev, Plugin: "none", VTI: "success", VREV: "success", Crit: "none"})
+					}
+				}
+			}
+		}
 		// quick tier: the integer-keyed COSE critical attribute (nothing can process it) under a reduced product
 		for _, L := range lib.AllLevelMaps() {
 			for _, plugin := range []string{"none", "TI", "REV", "TIREV"} {
@@ -406,7 +416,11 @@ func main() {
 		if !c.Ident {
 			id = "x509.subject:C=US,ST=WA,O=Other"
 		}
-		doc := lib.OCIPolicy(c.L.SV(i), []string{storeType + ":x"}, []string{id})
+		ids := []string{id}
+		if i%4 == 3 { // identities of another kind listed first are simply not x509.subject identities
+			ids = []string{"acme.signer.id:1234", "did:example:abc", id}
+		}
+		doc := lib.OCIPolicy(c.L.SV(i), []string{storeType + ":x"}, ids)
 		rs := &revScript{status: c.Rev}
 		p := &plug{version: "1.0.0", verdict: map[pf.Capability]string{TI: c.VTI, REV: c.VREV}, process: c.Crit == "processed", caps: capsOf(c.Plugin)}
 		switch c.Plugin {
